@@ -6,6 +6,11 @@ RepAtDef == <<7, 14, 21, 28, 35, 42, 49, 56>>
 \* TestBitString: p_fail = p_repeat = 2^-30, one run: FAILED <=> e > 30, PASSED <=> e < 30
 FailAtBit == <<31>>
 RepAtBit == <<30>>
+\* a fail level close to the repeat level (p_fail = 3e-4, p_repeat = 2^-7): from the third run on RepAt[k] exceeds FailAt[k], so a
+\* combined value may be below the fail level AND above the combined repeat level; the rule tests FAILED first
+FailAtClose == <<12, 16, 19, 22, 24, 27, 29, 31>>
+ExpsClose == {0, 3, 5, 6, 7, 8, 11, Inf}
+ExpsCloseMC == {0, 5, 7, 8, Inf}
 TestsDef == <<1, 2>>
 NamesOfDef == (1 :> {"a", "b"}) @@ (2 :> {"result"})
 ExpsDef == {0, 7, 8, 29, 30, Inf}
